@@ -22,22 +22,26 @@ def add(n, sched, calls, any_byte, tier):
     hs.append(H(nm, F, "successive_lines!(%s, %d, %d, [%s], %d, %s, %d);" % (
         nm, n, k, ", ".join(str(x) for x in sc), calls, "true" if any_byte else "false", n + 3),
         "17.a" if calls == 2 else "17.b", profile="R", tier=tier, timeout=900, mem_gb=(8 if n <= 3 else 12) if calls == 2 else 14,
+        weight_gb=(8 if calls == 3 else 6 if (n == 3 or any_byte) else 5) if n <= 3 else None,   # measured resident sizes: 4.5-4.8 GB (N <= 3), 7.2 GB (three calls)
         shape={"input_bytes": n, "chunk_schedule": sched, "calls": calls,
                "alphabet": "any text over ASCII + 2-byte UTF-8 characters" if any_byte else "{\\n, x, y}"},
         replay="playback"))
 
 
+# Quick tier: 9 instances that fit the memory budget in ONE wave (about 6 min): every schedule of N <= 3 except N = 1, one
+# multi-byte instance, one three-call instance.  (The harness asked for "every change" was stopped at 900 s when the tier
+# needed three waves.)  N = 4, the other multi-byte and three-call instances and N = 1 are thorough.
 add(0, [], 2, False, "quick")
 for n in (1, 2, 3, 4):
     for sched in compositions(n):
-        add(n, sched, 2, False, "quick" if n <= 3 or sched in ([4], [2, 2]) else "thorough")
+        add(n, sched, 2, False, "quick" if n in (2, 3) else "thorough")
 for sched in ([3], [1, 2], [2, 1]):
-    add(3, sched, 3, False, "quick" if sched != [2, 1] else "thorough")
+    add(3, sched, 3, False, "quick" if sched == [3] else "thorough")
 for sched in ([4], [2, 2], [1, 2, 1]):
     add(4, sched, 3, False, "thorough")
 # N = 5 with three calls ran out of memory (14 GB) for every schedule tried and is not registered
 for sched in ([2], [1, 1]):
-    add(2, sched, 2, True, "quick")
+    add(2, sched, 2, True, "quick" if sched == [1, 1] else "thorough")
 for sched in ([3], [1, 2], [2, 1]):
     add(3, sched, 2, True, "thorough")
 
@@ -46,9 +50,9 @@ PROP = Property(
     anchors={F: "src/sys/unix.rs"},
     obligations=[
         O("17.a", "two successive read_line calls return the first two lines, whatever the chunking",
-          ["sys::unix::read_line_from"], "input <= 4 bytes over {\\n,x,y}, every chunk schedule"),
+          ["sys::unix::read_line_from"], "input <= 3 bytes (thorough 4) over {\\n,x,y}, every chunk schedule"),
         O("17.b", "three calls: partial last line, then empty strings at end of input",
-          ["sys::unix::read_line_from"], "input 4 (thorough 5) bytes"),
+          ["sys::unix::read_line_from"], "input 3 bytes (thorough 4)"),
     ],
     harnesses=hs,
     pre_checks=[syntactic.read_line_is_thin_wrapper],
